@@ -202,6 +202,33 @@ pub fn run_c01(out: &mut Out, tier: &str, seed: u64) {
             if o.ok().as_ref() != Some(&m) { out.hit("box.open_easy.rejects-libsodium-box", format!("len {}", len), json!({"op":"box.open_easy","pk":hx(pka),"sk":hx(skb),"nonce":hx(&n),"box":hx(&s)})); }
             let oi = guard(|| { let mut dd = s.clone(); crypto_box_open_easy_inplace(&mut dd, &n, pka, skb).map(|_| dd) });
             if oi.ok().map(|v| v[..len].to_vec()).as_ref() != Some(&m) { out.hit("box.open_easy_inplace.roundtrip-fails", format!("len {}", len), json!({"len":len})); }
+            // the public-key forms through the model (X25519 in the extracted model is slow: a few lengths per pair)
+            if [0usize, 1, 16, 63, 64, 65].contains(&len) && (thorough || pi == 0 || len <= 1) {
+                out.case("box.easy", &[b(&vec![SENT; len + 16]), b(&m), b(&n), b(pkb), b(ska)], &e.clone().map(|v| vec![Tok::B(v)]), true);
+                let r = { let mut mm = vec![SENT; len]; let r = guard(|| crypto_box_open_easy(&mut mm, &s, &n, pka, skb)); (r, mm) };
+                out.case("box.open_easy", &[b(&vec![SENT; len]), b(&s), b(&n), b(pka), b(skb)], &open_res(&r), true);
+                // a buffer that is too short for the box: Err, not a panic
+                let short = guard(|| { let mut c = vec![SENT; 15]; crypto_box_easy(&mut c, &m, &n, pkb, ska).map(|_| c) });
+                out.case("box.easy", &[b(&vec![SENT; 15]), b(&m), b(&n), b(pkb), b(ska)], &short.map(|v| vec![Tok::B(v)]), false);
+                // sealing with a scripted ephemeral key (the generator hook of C11), so that the model can follow
+                if len <= 64 {
+                    let esk: [u8; 32] = rng.arr();
+                    { let mut g = crate::c11::STREAM.lock().unwrap(); g.0 = esk.to_vec(); g.0.extend_from_slice(&[0u8; 64]); g.1 = 0; g.2.clear(); }
+                    dryoc::rng::verif_set_rng(Some(crate::c11::hook));
+                    let sealed = guard(|| { let mut c = vec![SENT; len + 48]; crypto_box_seal(&mut c, &m, pkb).map(|_| c) });
+                    dryoc::rng::verif_set_rng(None);
+                    out.case("box.seal", &[b(&vec![SENT; len + 48]), b(&m), b(pkb), b(&esk)], &sealed.clone().map(|v| vec![Tok::B(v)]), true);
+                    if let Outcome::Ok(c) = &sealed {
+                        let r = { let mut mm = vec![SENT; len]; let r = guard(|| crypto_box_seal_open(&mut mm, c, pkb, skb)); (r, mm) };
+                        out.case("box.seal_open", &[b(&vec![SENT; len]), b(c), b(pkb), b(skb)], &open_res(&r), true);
+                        // a sealed box opened into a buffer of the wrong size, and a truncated one
+                        let r = { let mut mm = vec![SENT; len + 1]; let r = guard(|| crypto_box_seal_open(&mut mm, c, pkb, skb)); (r, mm) };
+                        out.case("box.seal_open", &[b(&vec![SENT; len + 1]), b(c), b(pkb), b(skb)], &open_res(&r), false);
+                        let r = { let mut mm = vec![SENT; 0]; let r = guard(|| crypto_box_seal_open(&mut mm, &c[..47], pkb, skb)); (r, mm) };
+                        out.case("box.seal_open", &[b(&[]), b(&c[..47]), b(pkb), b(skb)], &open_res(&r), false);
+                    }
+                }
+            }
             // sealed boxes: dryoc seals, both open; libsodium seals, dryoc opens
             if len <= 320 && (thorough || len % 4 == 0) {
                 out.search_evaluations += 4;
